@@ -35,7 +35,7 @@ RULE = ("battery: batdata generator (C01 domain) x outcome vector over the comma
         "JSON; non-trivial = >=2 set_power calls and at least one non-ok outcome or non-zero excess")
 REQUIRED_BUCKETS = ["request-object-changed-by-its-owner-while-in-flight", "battery-group-outside-the-request-present", "pv-inverter-without-a-reported-bound",
                     "battery", "pv", "all-ok", "some-failed", "all-failed", "outcome:range", "outcome:client",
-                    "outcome:exc", "outcome:hang", "excess-nonzero", "multi-inverter-group", "followup-request", "pv-concurrent-requests",
+                    "outcome:exc", "outcome:hang", "excess-nonzero", "multi-inverter-group", "followup-request", "pv-concurrent-requests", "battery-concurrent-requests",
                     "reply-shortly-before-a-fractional-timeout", "unusable-battery-group-requested", "calls-answer-after-different-delays"]
 REQUIRED_COUNTERS = ["results_checked", "set_power_calls_observed"]
 ASSUMPTIONS = ["API boundary faked; timeouts in virtual time (5 s)"]
@@ -84,6 +84,17 @@ def gen(rng: Any, tier: str, i: int) -> Any:
             # the microgrid has one more battery group, healthy and streaming, that the request does not name
             case["bystander"] = True
         if len(case["groups"]) >= 2 and rng.random() < 0.3:
+            # two requests for disjoint battery groups in flight at the same time (the distributing actor processes
+            # requests for disjoint component sets concurrently): each result accounts for its own request
+            cut = rng.randint(1, len(case["groups"]) - 1)
+            share = cut / len(case["groups"])
+            case["bat_concurrent"] = {"cut": cut, "power1": round(case["power"] * share, 3),
+                                      "power2": round(case["power"] * (1 - share) * rng.choice([1.0, -0.5, 0.25]), 3)}
+            case["latency"] = 0.3 if case["timeout"] == 5.0 else 0.8 * case["timeout"]
+            case.pop("lat_vec", None)
+            case.pop("reuse_request", None)
+            case["followup"] = False
+        elif len(case["groups"]) >= 2 and rng.random() < 0.3:
             # one requested battery group is unusable (its batteries report SoC NaN): it must not be commanded and
             # must appear in neither component set of the result
             case["unusable"] = rng.randrange(len(case["groups"]))
@@ -165,6 +176,33 @@ async def _battery_run(case: dict[str, Any], vec: list[str], out: dict[str, Any]
     await feed_all()
     await asyncio.sleep(0.5)
     all_bats = {b for bats, _ in groups for b in bats}
+    conc = case.get("bat_concurrent")
+    if conc:
+        g1, g2 = groups[: conc["cut"]], groups[conc["cut"]:]
+        req1 = Request(power=Power.from_watts(conc["power1"]), component_ids={b for bats, _ in g1 for b in bats}, adjust_power=True)
+        req2 = Request(power=Power.from_watts(conc["power2"]), component_ids={b for bats, _ in g2 for b in bats}, adjust_power=True)
+
+        async def second() -> None:
+            await asyncio.sleep(0.1)  # starts while the first request's API calls are still pending
+            await mgr.distribute_power(req2)
+
+        api.calls.clear()
+        await asyncio.gather(mgr.distribute_power(req1), second())
+        results = []
+        while res_rx._q:  # noqa: SLF001
+            results.append(res_rx.consume())
+        for req, grp, pw in ((req1, g1, conc["power1"]), (req2, g2, conc["power2"])):
+            invs = {i for _, ii in grp for i in ii}
+            mine = [r for r in results if r.request is req]
+            out["rounds"].append({"result": mine[0] if mine else None, "calls": [dict(c) for c in api.calls if c["id"] in invs],
+                                  "request": req, "extra_results": [repr(r)[:200] for r in mine[1:]], "power_at_call": pw,
+                                  "t_done": asyncio.get_event_loop().time(), "concurrent": True,
+                                  "inv_bats": {**{i: sorted(bats) for bats, ii in groups for i in ii}, BY_INV: [BY_BAT]}})
+        await asyncio.sleep(0.05)
+        collector.cancel()
+        out["pool_status"] = hist
+        await mgr.stop()
+        return
     n_req = 2 if case.get("followup") else 1
     for k in range(n_req):
         api.calls.clear()
@@ -380,8 +418,9 @@ def check(case: dict[str, Any], rec: Any) -> None:
         any_bad = any_bad or nbad > 0
         for k, rnd in enumerate(out["rounds"]):
             if rnd.get("concurrent"):
-                rec.bucket("pv-concurrent-requests")
-                _judge(case, vec, rnd, rec, first=True)
+                rec.bucket("pv-concurrent-requests" if case["kind"] == "pv" else "battery-concurrent-requests")
+                # (a share of the pool's request is not necessarily inside the sub-pool's bounds: refusals are not judged)
+                _judge(case, vec, rnd, rec, first=case["kind"] == "pv")
                 continue
             if k > 0:
                 rec.bucket("followup-request")
